@@ -18,7 +18,7 @@ VARIABLES l,      \* next line
           bk,     \* id key (what was hashed) -> digest class, for the determinism clause
           skip    \* the current trace was rejected: its remaining lines are not judged
 
-tvars == <<obj, held, reg, ret, hist, l, bk, skip>>
+tvars == <<obj, held, reg, ret, hist, blobs, l, bk, skip>>
 
 Fn(x) == x   \* JSON objects arrive as records / functions already
 
@@ -52,6 +52,46 @@ DupT(st, n, names, bases) ==
         st2 == CreateB(kf.st, [c |-> rec.c, p |-> rec.p, k |-> kf.k, o |-> rec.o], s, bases[kf.used + 1])
     IN [st |-> st2, res |-> s, used |-> kf.used + 1]
 
+(* deserialization with logged slot names / digests for the nodes it creates (creation order) *)
+RECURSIVE DesT(_, _, _, _, _)
+DesT(st, bh, n, names, bases) ==     \* -> [st, res, used]
+    LET id == bh[n].id
+        hit == {t \in st.reg : st.obj[t].id = id}
+    IN IF hit # {} THEN [st |-> st, res |-> CHOOSE x \in hit : TRUE, used |-> 0]
+       ELSE
+        LET c == bh[n].c
+            fs == ChildFields[c]
+            RECURSIVE Elems(_, _, _)
+            Elems(acc, ss, j) ==
+                IF j > Len(ss) THEN acc
+                ELSE LET d == DesT(acc.st, bh, ss[j], SubSeq(names, acc.used + 1, Len(names)),
+                                                        SubSeq(bases, acc.used + 1, Len(bases)))
+                     IN Elems([st |-> d.st, res |-> Append(acc.res, d.res), used |-> acc.used + d.used], ss, j + 1)
+            RECURSIVE Flds(_, _)
+            Flds(acc, j) ==
+                IF j > Len(fs) THEN acc
+                ELSE LET f == fs[j]
+                         v == bh[n].k[f]
+                         isq == IsSeqKind(Kind[c][f])
+                         ss == IF isq THEN v ELSE IF v = NoSlot THEN <<>> ELSE <<v>>
+                         e == Elems([st |-> acc.st, res |-> <<>>, used |-> acc.used], ss, 1)
+                         val == IF isq THEN e.res ELSE IF v = NoSlot THEN NoSlot ELSE e.res[1]
+                     IN Flds([st |-> e.st, k |-> (f :> val) @@ acc.k, used |-> e.used], j + 1)
+            kf == Flds([st |-> st, k |-> <<>>, used |-> 0], 1)
+        IN IF kf.used + 1 > Len(names) THEN [st |-> kf.st, res |-> NoSlot, used |-> kf.used + 1]   \* log too short
+           ELSE
+            LET s == names[kf.used + 1]
+                st1 == CreateB(kf.st, [c |-> c, p |-> bh[n].p, k |-> kf.k, o |-> bh[n].o], s, bases[kf.used + 1])
+                taken == id \in UsedIds(st1.obj, st1.reg \ {s})
+                st2 == IF st1.obj[s].id = id \/ taken THEN st1
+                       ELSE Register([PopId(st1, st1.obj[s].id) EXCEPT !.obj[s].id = id], s)
+            IN [st |-> st2, res |-> s, used |-> kf.used + 1]
+
+(* a payload received from elsewhere (another process): logged by value, ids as <<digest class, suffix>> *)
+Payload(pl) == [h |-> [n \in DOMAIN pl.h |-> [c |-> pl.h[n].c, p |-> pl.h[n].p, k |-> pl.h[n].k, o |-> pl.h[n].o,
+                                                 id |-> <<pl.h[n].idb, pl.h[n].idn>>]],
+                root |-> pl.root]
+
 MarkDet(st, T) == [st EXCEPT !.obj = [s \in DOMAIN st.obj |->
                                         IF s \in T THEN [st.obj[s] EXCEPT !.det = TRUE] ELSE st.obj[s]]]
 
@@ -79,6 +119,11 @@ After(e) ==
            [st |-> MarkDet(PopAll(st, Reach(obj, e.src)), Reach(obj, e.src)), held |-> held]
       [] e.op = "detach_self" ->
            [st |-> MarkDet(PopFor(st, e.src), {e.src}), held |-> held]
+      [] e.op = "deser" ->
+           LET d == DesT(st, blobs[e.blob].h, blobs[e.blob].root, e.news, e.bases)
+           IN [st |-> d.st, held |-> IF d.res = NoSlot THEN held ELSE held \cup {d.res}]
+      [] e.op \in {"ser", "load", "forget"} -> [st |-> st, held |-> held]
+      [] e.op = "dropall" -> [st |-> st, held |-> {}]
       [] e.op = "drop" -> [st |-> st, held |-> held \ {e.src}]
       [] e.op = "hold" -> [st |-> st, held |-> held \cup {e.src}]
 
@@ -103,12 +148,16 @@ Diff(e, o2, h2, r2) ==
        \cup (IF ToSet(P.live) = alive /\ \E s, t \in alive :
                    s # t /\ ((o2[s].id = o2[t].id) # (<<s, t>> \in ToSet(P.sameid)))
              THEN {"id-partition"} ELSE {})
+       \cup (IF e.op = "deser" /\ e.res # DesT(St, blobs[e.blob].h, blobs[e.blob].root, e.news, e.bases).res
+             THEN {"deser-result"} ELSE {})
        \cup (IF e.op = "detach_self" /\ e.popped # (PopFor(St, e.src).reg # reg) THEN {"detach_self-result"} ELSE {})
 
 (* digests: the same key always hashes to the same digest; with an injective digest (size 8)
    different keys get different digests *)
 NewKeys(e, o2) == IF e.op \in {"new", "replace", "dcreplace"} THEN <<<<e.bases[1], IdKeyOf(o2, o2[e.res])>>>>
                   ELSE IF e.op = "dup" THEN [j \in 1..Len(e.news) |-> <<e.bases[j], IdKeyOf(o2, o2[e.news[j]])>>]
+                  ELSE IF e.op = "deser" /\ e.cbases
+                       THEN [j \in 1..Len(e.news) |-> <<e.bases[j], IdKeyOf(o2, o2[e.news[j]])>>]
                   ELSE <<>>
 RECURSIVE BkAdd(_, _, _)
 BkAdd(m, ks, inj) ==    \* m: id key -> digest class;  -> [m, ok]
@@ -120,7 +169,7 @@ BkAdd(m, ks, inj) ==    \* m: id key -> digest class;  -> [m, ok]
              rest == BkAdd(IF K \in DOMAIN m THEN m ELSE (K :> b) @@ m, Tail(ks), inj)
          IN [m |-> rest.m, ok |-> okh /\ rest.ok]
 
-TInit == /\ obj = <<>> /\ held = {} /\ reg = {} /\ hist = <<>>
+TInit == /\ obj = <<>> /\ held = {} /\ reg = {} /\ hist = <<>> /\ blobs = <<>>
         /\ ret = [op |-> "init", res |-> NoSlot, src |-> NoSlot]
         /\ l = 1 /\ bk = <<>> /\ skip = FALSE
         /\ TLCSet(1, {})
@@ -133,9 +182,9 @@ TNext ==
     /\ hist' = hist
     /\ LET e == Lines[l] IN
        IF e.op = "init"
-       THEN /\ obj' = <<>> /\ held' = {} /\ reg' = {} /\ bk' = <<>> /\ skip' = FALSE
+       THEN /\ obj' = <<>> /\ held' = {} /\ reg' = {} /\ bk' = <<>> /\ skip' = FALSE /\ blobs' = <<>>
             /\ ret' = [op |-> "init", res |-> NoSlot, src |-> NoSlot]
-       ELSE IF skip THEN UNCHANGED <<obj, held, reg, bk, skip, ret>>
+       ELSE IF skip THEN UNCHANGED <<obj, held, reg, bk, skip, ret, blobs>>
        ELSE LET a == After(e)
                 alive == ReachAll(a.st.obj, a.held)
                 o2 == [s \in alive |-> a.st.obj[s]]
@@ -147,6 +196,9 @@ TNext ==
                \* continue from the *logged* world so that one rejection does not hide the rest:
                \* the spec state is what the spec computed (the logged one is only compared)
                /\ skip' = (bad # {})
+               /\ blobs' = IF e.op = "ser" THEN Append(blobs, Snapshot(e.src))
+                            ELSE IF e.op = "load" THEN Append(blobs, Payload(e.payload))
+                            ELSE blobs
                /\ obj' = o2 /\ held' = a.held /\ reg' = r2 /\ bk' = kb.m
                /\ ret' = [op |-> e.op, res |-> NoSlot, src |-> NoSlot]
 
